@@ -127,7 +127,7 @@ impl C01 {
                 let rest = &bytes[8..];
                 let prog = match family {
                     "alloc_loops" => {
-                        let p = crate::gen_alloc::plan(rest, 120, 60);
+                        let p = crate::gen_alloc::plan_n(rest, 120, 60, crate::gen_alloc::KINDS_WITH_RANGES);
                         crate::gen_alloc::program(&p, p.iterations.min(120))
                     }
                     "fibers" => gen::program(rest, profiles::c09()).0,
